@@ -91,9 +91,21 @@ def _proj(f):
     return out
 
 
-def impl_structs(cv, valids, col):
+_BUF = {}         # one label buffer per recording length, RE-LABELLED IN PLACE from case to case when reuse is asked for
+_PREV = {}
+
+
+def impl_structs(cv, valids, col, reuse=False):
     from emd import cycles
-    cvA = np.array(cv, dtype=int)
+    if reuse:
+        buf = _BUF.get(len(cv))
+        if buf is None:
+            buf = _BUF[len(cv)] = np.full(len(cv), -1, dtype=int)
+        _PREV[len(cv)] = buf.tolist()
+        buf[:] = cv
+        cvA = buf
+    else:
+        cvA = np.array(cv, dtype=int)
     if col:
         cvA = cvA[:, None]
     sv = cycles.get_subset_vector(np.array(valids, dtype=bool))
@@ -154,8 +166,9 @@ def impl_run_maps(cv, valids, col=False):
 
 
 # ------------------------------------------------------------------ property oracle (no model involved)
-def oracle(cv, valids, col=False):
-    """Return a list of (site, detail) failures of the property itself."""
+def oracle(cv, valids, col=False, reuse=False):
+    """Return a list of (site, detail) failures of the property itself.  reuse: the cycle vector is ONE array object per recording
+    length whose labels are rewritten in place between cases (a caller's buffer): the maps are functions of its current content"""
     from emd import _cycles_support as S
     fails = []
     sel = [k for k, b in enumerate(valids) if b]
@@ -167,7 +180,7 @@ def oracle(cv, valids, col=False):
         chain_of_sub.append(c)
     nch = c + 1
     try:
-        cvA, sv, chv = impl_structs(cv, valids, col)
+        cvA, sv, chv = impl_structs(cv, valids, col, reuse)
     except Exception as e:
         return [('get_subset_vector/get_chain_vector', 'raised %r' % e)]
     exp_sv = [sub_of.get(k, -1) for k in range(len(valids))]
@@ -296,8 +309,8 @@ def nontrivial(cv, valids):
 def run(ctx):
     ctx.rule = ('cases = (cycle vector, selection vector): every boolean selection of length <= %d with a derived '
                 'cycle/gap layout, every composition of <= %d cycles (lens 1-3, gaps 0-1) x every selection, plus random '
-                'larger ones; each case evaluates all 12 maps and 6 projections (values of dtype float64, int64, float32, bool) on every index, in the (n,) and (n,1) '
-                'layouts; non-trivial = has both selected and unselected cycles, or unlabelled samples and a selection'
+                'larger ones; each case evaluates all 12 maps and 6 projections (values of dtype float64, int64, float32, bool) on every index, in the (n,) and (n,1) layouts, half of the cases also on one array object per recording length that is re-labelled in place from case to case; '
+                'non-trivial = has both selected and unselected cycles, or unlabelled samples and a selection'
                 % ((8, 3) if ctx.quick() else (12, 4)))
     ctx.proof(extra=['props/Prop_Tie_Maps.v', 'props/Prop_Tie_Cyclesobj.v', 'props/Prop_Tie_Cyciter.v'])  # translation tie: program regenerated from the source + refinement theorems
     cases = gen_cases(ctx)
@@ -319,11 +332,27 @@ def run(ctx):
         fails = oracle(cv, valids)
         if idx % 7 == 0:
             fails += oracle(cv, valids, col=True)
+        extra = {}
         for site, detail in fails:
-            ctx.problem('impl-violation', site, detail, input=dict(cycle_vect=cv, valids=[int(b) for b in valids]),
+            ctx.problem('impl-violation', site, detail, input=dict(cycle_vect=cv, valids=[int(b) for b in valids], **extra),
                         tags=dict(site=site))
         if bad and first_bad is None and not fails:
             first_bad = idx
+    # reused buffer: CONSECUTIVE questions about one array object per recording length whose labels are rewritten in place in between
+    # (no other cycle vector is asked about in between, so anything remembered about "the last array" is about this one)
+    if not any(p['kind'] == 'impl-violation' for p in ctx.problems):
+        for idx, (cv, valids) in enumerate(cases):
+            if idx % 2 == 0:
+                continue
+            fr = oracle(cv, valids, reuse=True)
+            ctx.hist['reused-buffer'] += 1
+            if fr:
+                site, d = fr[0]
+                ctx.problem('impl-violation', site, '[the SAME array object had held the labels %s when the maps were last asked; it was '
+                            're-labelled in place] %s' % (_PREV.get(len(cv)), d),
+                            input=dict(cycle_vect=cv, valids=[int(b) for b in valids], previous_labels_in_same_array=_PREV.get(len(cv))),
+                            tags=dict(site=site))
+                break
     if first_bad is not None:
         cv, valids = cases[first_bad]
         mo = ctx.model_outputs(IMPORTS, [lits[first_bad]], 'fun c => run_maps (fst c) (snd c)')[0]
@@ -334,6 +363,14 @@ def run(ctx):
 
 def replay(rec):
     inp = rec['input']
+    if inp.get('previous_labels_in_same_array') is not None:
+        prev = inp['previous_labels_in_same_array']
+        _BUF.pop(len(prev), None)
+        oracle(prev, [True] * (max(prev) + 1) if max(prev) >= 0 else [], reuse=True)       # ask the maps of the buffer with the earlier labels
+        fails = oracle(inp['cycle_vect'], [bool(b) for b in inp['valids']], reuse=True)     # then re-label it in place and ask again
+        for f in fails:
+            print(f)
+        return bool(fails)
     fails = oracle(inp['cycle_vect'], [bool(b) for b in inp['valids']]) + \
         oracle(inp['cycle_vect'], [bool(b) for b in inp['valids']], col=True)
     for f in fails:
